@@ -22,8 +22,16 @@
 (* fee the chain's own query returned before the message (e.fee), the      *)
 (* model generator uses the value that formula has for 3-letter symbols;   *)
 (* token names; max supply 0 with mintable (MaxUint64); the native token   *)
-(* record ("stake", scale 0) is a constant, not part of st.tok; DeployERC20 *)
-(* of an IBC denom that has no token yet.                                  *)
+(* record ("stake", scale 0, owner nobody) is a constant, not part of      *)
+(* st.tok — only its ERC20 binding is state (st.native).                   *)
+(*                                                                         *)
+(* Beyond C09/C10 (diagnostic clauses X09_/X10_/X12_, strict mode): the    *)
+(* ERC20 life cycle (deploy for a token, for the native token, for an IBC  *)
+(* denom without a token, twice; UpgradeERC20; the hook on foreign and     *)
+(* malformed logs), a supply ledger per token (issued + minted + converted *)
+(* in - converted out - burned tally = supply), the fee-amount table for   *)
+(* symbol lengths 3..8 (st.feeq, so a change of the float formula shows as *)
+(* drift), and the genesis operators ExportG / ValidateG / ImportG.        *)
 (***************************************************************************)
 EXTENDS Integers, Sequences, FiniteSets, TLC, Util, Json, IOUtils, TokenMath
 
@@ -43,6 +51,7 @@ QREVERT == "evrevert" \* harness EVM: mint to / burn from this address reverts
 QSHORT  == "evshort"  \* harness EVM: mint/burn moves amount-1 (post-balance check)
 QNOKEY  == "evnokey"  \* harness EVM: SupportedKey(pubkey) = FALSE
 
+IBCDenoms == {"ibc/x1", "ibc/x2"}   \* denoms the harness ICS20 keeper has a trace for
 UsersOf(t) == DOMAIN t.bal \ {TOK, FEEP}
 ErcAddrs(t) == UsersOf(t) \cup {EXT}
 Blocked(a) == a = FEEP
@@ -62,6 +71,26 @@ Done(s) == DoneW(s, "")
 TokOf(s, mu) == s.tok[s.byMinUnit[mu]]
 HasMinUnit(s, mu) == mu \in DOMAIN s.byMinUnit
 NoContract == ""
+(* the ERC20 contract bound to the token whose coin is mu (getTokenByMinUnit);
+   the native token's binding is st.native *)
+(* types/validation.go ValidateMinUnit (ValidateBasic of Issue, Mint, Burn,
+   SwapFeeToken): lower-case alphanumerics only, no reserved prefix — an IBC
+   denom ("ibc/...") is refused, so the token DeployERC20 creates for one can be
+   converted but never minted, burned or fee-swapped through this module *)
+BadMinUnit(mu) == mu \in IBCDenoms
+HasTok(s, mu) == HasMinUnit(s, mu) \/ mu = STAKE
+ContractOf(s, mu) == IF mu = STAKE THEN s.native
+                     ELSE IF HasMinUnit(s, mu) THEN TokOf(s, mu).contract ELSE NoContract
+
+(* keeper/fees.go calcFeeByBase: fee = base / round2((ln len / ln 3)^4), truncated,
+   at least 1.  The factor is float arithmetic (math.Log, math.Pow, FormatFloat
+   'f' 2); it is TABULATED here for symbol lengths 3..8 — not derived.  The
+   harness logs the chain's own answers for the same lengths as st.feeq, so a
+   change of the formula shows as drift (strict mode), never as a verdict. *)
+FeeFactor100 == ("3" :> 100 @@ "4" :> 254 @@ "5" :> 461 @@ "6" :> 708 @@ "7" :> 984 @@ "8" :> 1284)
+FeeOfLen(base, f100) == IF base * 100 > f100 THEN (base * 100) \div f100 ELSE 1
+FeeTable(base) == [l \in DOMAIN FeeFactor100 |-> FeeOfLen(base, FeeFactor100[l])]
+LenKey(x) == ToString(Len(x))
 
 (* Symbols and min units are two separate key spaces (store prefixes 0x01 and
    0x02): a name may be the symbol of one token and the min unit of another.
@@ -91,7 +120,8 @@ MAXU == 20000000      \* stand-in for MaxUint64 (max supply 0 + mintable; never 
 (* msg_server.go IssueToken; keeper.go IssueToken; token.go AddToken *)
 DoIssue(s, who, sym, mu, scale, initial, max, mintable, fee) ==
   LET max2 == IF max = 0 THEN (IF mintable THEN MAXU ELSE initial) ELSE max IN
-  IF max2 < initial \/ scale > 18 THEN FailW(s, "validate_basic")
+  IF max2 < initial \/ scale > 18 \/ BadMinUnit(mu) \/ BadMinUnit(sym)   \* (ValidateSymbol: same shape)
+  THEN FailW(s, "validate_basic")
   ELSE LET f == DeductFee(s, who, fee) IN
   IF ~f.ok THEN FailW(s, "fee_unpaid")
   ELSE IF sym \in DOMAIN s.tok \/ sym = STAKE THEN FailW(s, "symbol_exists")
@@ -131,7 +161,7 @@ DoTransferOwner(s, who, sym, to) ==
 (* msg_server.go MintToken; keeper.go MintToken *)
 DoMint(s, who, mu, amt, to, fee) ==
   LET rcpt == IF to = "" THEN who ELSE to IN
-  IF amt <= 0 THEN FailW(s, "validate_basic")
+  IF amt <= 0 \/ BadMinUnit(mu) THEN FailW(s, "validate_basic")
   ELSE IF Blocked(rcpt) THEN FailW(s, "blocked")
   ELSE IF ~HasMinUnit(s, mu) THEN FailW(s, "no_token")   \* (the native token: not its owner)
   ELSE LET f == DeductFee(s, who, fee) IN
@@ -147,7 +177,7 @@ DoMint(s, who, mu, amt, to, fee) ==
 
 (* msg_server.go BurnToken; keeper.go BurnToken; token.go AddBurnCoin *)
 DoBurn(s, who, mu, amt) ==
-  IF amt <= 0 THEN FailW(s, "validate_basic")
+  IF amt <= 0 \/ BadMinUnit(mu) THEN FailW(s, "validate_basic")
   ELSE IF ~(HasMinUnit(s, mu) \/ mu = STAKE) THEN FailW(s, "no_token")
   ELSE IF s.bal[who][mu] < amt THEN FailW(s, "insufficient")
   ELSE Done([s EXCEPT !.bal = Debit(@, who, (mu :> amt)),
@@ -157,7 +187,7 @@ DoBurn(s, who, mu, amt) ==
 (* msg_server.go SwapFeeToken; keeper.go SwapFeeToken, calcFeeTokenMinted.
    burn first, then mint; a negative burn panics in sdk.NewCoin (recovered). *)
 DoSwapFee(s, who, mu, amt, to) ==
-  IF amt <= 0 THEN FailW(s, "validate_basic")
+  IF amt <= 0 \/ BadMinUnit(mu) THEN FailW(s, "validate_basic")
   ELSE IF to # "" /\ Blocked(to) THEN FailW(s, "blocked")
   ELSE IF ~(HasMinUnit(s, mu) \/ mu = STAKE) THEN FailW(s, "no_token")
   ELSE IF mu \notin DOMAIN s.registry THEN FailW(s, "no_swap")
@@ -187,33 +217,64 @@ DoSwapFee(s, who, mu, amt, to) ==
         IN [ok |-> TRUE, panic |-> FALSE, st |-> s2, why |-> why,
             burn |-> r.burn, mint |-> r.mint]
 
-(* msg_server.go DeployERC20 (authority); erc20.go DeployERC20.  The harness
-   EVM bumps the module account's nonce on creation like a real EVM; the
-   contract is named by the nonce it was created with. *)
-DoDeploy(s, mu) ==
-  IF ~HasMinUnit(s, mu) THEN FailW(s, "no_token")
+(* msg_server.go DeployERC20 (authority); erc20.go DeployERC20, buildERC20Token.
+   The harness EVM bumps the module account's nonce on creation like a real
+   EVM; the contract is named by the nonce it was created with.
+   Three cases: the min unit has a token (the message's symbol / scale are
+   ignored); it is the native token's; it has none — then a token is CREATED for
+   it (owner = module account, mintable, max 0) provided the symbol is free and
+   the ICS20 keeper knows a trace for the denom. *)
+NewContract(s) == "c" \o ToString(s.nonce + 1)
+Deployable(s) == IF ~s.params.erc20 THEN "erc20_disabled"
+                 ELSE IF ~s.params.beacon THEN "no_beacon" ELSE ""
+WithContract(s, c) == [s EXCEPT !.nonce = @ + 1, !.erc = Put(@, c, [a \in ErcAddrs(s) |-> 0])]
+
+DoDeploy(s, sym0, mu, scale) ==
+  LET sym == IF sym0 = "" THEN "zzz" ELSE sym0
+      c == NewContract(s)
+  IN
+  IF scale > 18 THEN FailW(s, "validate_basic")
+  ELSE IF mu = STAKE THEN
+    IF s.native # NoContract THEN FailW(s, "already_deployed")
+    ELSE IF Deployable(s) # "" THEN FailW(s, Deployable(s))
+    ELSE Done([WithContract(s, c) EXCEPT !.native = c])
+  ELSE IF ~HasMinUnit(s, mu) THEN
+    IF sym \in DOMAIN s.tok \/ sym = STAKE THEN FailW(s, "symbol_exists")
+    ELSE IF mu \notin IBCDenoms THEN FailW(s, "no_token")
+    ELSE IF Deployable(s) # "" THEN FailW(s, Deployable(s))
+    ELSE
+      LET t == [minUnit |-> mu, scale |-> scale, max |-> 0, mintable |-> TRUE,
+                owner |-> TOK, initial |-> 0, contract |-> c]
+      IN Done([WithContract(s, c) EXCEPT !.tok = Put(@, sym, t),
+                                         !.byMinUnit = Put(@, mu, sym)])
   ELSE
     LET sy == s.byMinUnit[mu] IN
     IF s.tok[sy].contract # NoContract THEN FailW(s, "already_deployed")
-    ELSE IF ~s.params.erc20 THEN FailW(s, "erc20_disabled")
-    ELSE IF ~s.params.beacon THEN FailW(s, "no_beacon")
-    ELSE
-      LET c == "c" \o ToString(s.nonce + 1) IN
-      Done([s EXCEPT !.tok[sy].contract = c, !.nonce = @ + 1,
-                     !.erc = Put(@, c, [a \in ErcAddrs(s) |-> 0])])
+    ELSE IF Deployable(s) # "" THEN FailW(s, Deployable(s))
+    ELSE Done([WithContract(s, c) EXCEPT !.tok[sy].contract = c])
+
+(* msg_server.go UpgradeERC20 (authority); erc20.go UpgradeERC20: the beacon's
+   upgradeTo(implementation).  The harness EVM records the implementation and
+   reverts for the quirk address. *)
+DoUpgrade(s, impl) ==
+  IF impl = "" THEN FailW(s, "validate_basic")
+  ELSE IF ~s.params.erc20 THEN FailW(s, "erc20_disabled")
+  ELSE IF ~s.params.beacon THEN FailW(s, "no_beacon")
+  ELSE IF impl = QREVERT THEN FailW(s, "evm_revert")
+  ELSE Done([s EXCEPT !.impl = impl])
 
 (* msg_server.go SwapToERC20; erc20.go SwapToERC20, MintERC20 *)
 DoToERC20(s, who, to, mu, amt) ==
   IF amt <= 0 \/ to \notin ErcAddrs(s) THEN FailW(s, "validate_basic")
   ELSE IF ~s.params.erc20 THEN FailW(s, "erc20_disabled")
   ELSE IF to = QNOKEY THEN FailW(s, "unsupported_key")
-  ELSE IF ~HasMinUnit(s, mu) THEN FailW(s, "no_token")
-  ELSE IF TokOf(s, mu).contract = NoContract THEN FailW(s, "not_deployed")
+  ELSE IF ~HasTok(s, mu) THEN FailW(s, "no_token")
+  ELSE IF ContractOf(s, mu) = NoContract THEN FailW(s, "not_deployed")
   ELSE IF s.bal[who][mu] < amt THEN FailW(s, "insufficient")
   ELSE IF to = QREVERT THEN FailW(s, "evm_revert")
   ELSE IF to = QSHORT THEN FailW(s, "evm_postcheck")
   ELSE
-    LET c == TokOf(s, mu).contract IN
+    LET c == ContractOf(s, mu) IN
     Done([s EXCEPT !.bal = Debit(@, who, (mu :> amt)),
                    !.supply = SubSupply(@, (mu :> amt)),
                    !.erc[c][to] = @ + amt])
@@ -222,10 +283,10 @@ DoToERC20(s, who, to, mu, amt) ==
 DoFromERC20(s, who, to, mu, amt) ==
   IF amt <= 0 \/ to = "" THEN FailW(s, "validate_basic")
   ELSE IF ~s.params.erc20 THEN FailW(s, "erc20_disabled")
-  ELSE IF ~HasMinUnit(s, mu) THEN FailW(s, "no_token")
-  ELSE IF TokOf(s, mu).contract = NoContract THEN FailW(s, "not_deployed")
+  ELSE IF ~HasTok(s, mu) THEN FailW(s, "no_token")
+  ELSE IF ContractOf(s, mu) = NoContract THEN FailW(s, "not_deployed")
   ELSE
-    LET c == TokOf(s, mu).contract IN
+    LET c == ContractOf(s, mu) IN
     IF s.erc[c][who] < amt THEN FailW(s, "insufficient")
     ELSE IF who = QREVERT THEN FailW(s, "evm_revert")
     ELSE IF who = QSHORT THEN FailW(s, "evm_postcheck")
@@ -239,10 +300,10 @@ DoFromERC20(s, who, to, mu, amt) ==
    keeper's hook on the receipt (evm_hook.go PostTxProcessing): mint the
    event's amount natively to the event's receiver.  Any error reverts both. *)
 DoHook(s, who, to, mu, amt) ==
-  IF ~HasMinUnit(s, mu) THEN FailW(s, "no_token")
-  ELSE IF TokOf(s, mu).contract = NoContract THEN FailW(s, "not_deployed")
+  IF ~HasTok(s, mu) THEN FailW(s, "no_token")
+  ELSE IF ContractOf(s, mu) = NoContract THEN FailW(s, "not_deployed")
   ELSE
-    LET c == TokOf(s, mu).contract IN
+    LET c == ContractOf(s, mu) IN
     IF to = "" \/ who \notin ErcAddrs(s) THEN FailW(s, "evm_revert")
     ELSE IF s.erc[c][who] < amt THEN FailW(s, "evm_revert")
     ELSE IF ~s.params.erc20 THEN FailW(s, "erc20_disabled")
@@ -252,12 +313,28 @@ DoHook(s, who, to, mu, amt) ==
                         !.supply = AddSupply(@, (mu :> amt)),
                         !.bal = Credit(@, to, (mu :> amt))])
 
+(* The hook on receipts that no bound contract's swapToNative produced (the
+   harness forges the log; no ERC20 balance moves).  evm_hook.go walks the logs:
+     "unbound"     a well-formed SwapToNative log of a contract bound to no token
+                   -> skipped (even while ERC20 is disabled);
+     "topics2"     two topics -> skipped;   "otherevent"  unknown event id -> skipped;
+     "badto"       bound contract, receiver not a bech32 address -> error;
+     "baddata"     bound contract, data does not unpack -> error.
+   For the last two an unbound min unit makes the harness use the foreign
+   address, so the log is skipped. *)
+HookVariantsAll == {"unbound", "topics2", "otherevent", "badto", "baddata"}
+DoHookForged(s, variant, mu) ==
+  IF variant \in {"unbound", "topics2", "otherevent"} THEN Done(s)
+  ELSE IF ContractOf(s, mu) = NoContract THEN Done(s)
+  ELSE IF ~s.params.erc20 THEN FailW(s, "erc20_disabled")
+  ELSE FailW(s, "bad_log")
+
 (* msg_server.go UpdateParams (authority); p is a valid parameter record *)
 DoSetParams(s, p) ==
   IF p.taxNum < 0 \/ p.taxNum > p.taxDen \/ p.mintNum < 0 \/ p.mintNum > p.mintDen
      \/ p.baseFee < 0
   THEN FailW(s, "validate_basic")
-  ELSE Done([s EXCEPT !.params = p])
+  ELSE Done([s EXCEPT !.params = p, !.feeq = FeeTable(p.baseFee)])
 
 (* types.LossLessSwap called as a pure function (C10 part i) *)
 DoLossLess(s, input, rn, rd, sIn, sOut) ==
@@ -275,10 +352,12 @@ Apply(s, e) ==
     [] e.name = "Mint" -> DoMint(s, e.who, e.mu, e.amt, e.to, e.fee)
     [] e.name = "Burn" -> DoBurn(s, e.who, e.mu, e.amt)
     [] e.name = "SwapFee" -> DoSwapFee(s, e.who, e.mu, e.amt, e.to)
-    [] e.name = "Deploy" -> DoDeploy(s, e.mu)
+    [] e.name = "Deploy" -> DoDeploy(s, e.sym, e.mu, e.scale)
+    [] e.name = "Upgrade" -> DoUpgrade(s, e.to)
     [] e.name = "ToERC20" -> DoToERC20(s, e.who, e.to, e.mu, e.amt)
     [] e.name = "FromERC20" -> DoFromERC20(s, e.who, e.to, e.mu, e.amt)
-    [] e.name = "Hook" -> DoHook(s, e.who, e.to, e.mu, e.amt)
+    [] e.name = "Hook" -> IF e.sym = "" THEN DoHook(s, e.who, e.to, e.mu, e.amt)
+                          ELSE DoHookForged(s, e.sym, e.mu)
     [] e.name = "SetParams" -> DoSetParams(s, e.p)
     [] e.name = "LossLess" -> DoLossLess(s, e.amt, e.rn, e.rd, e.sin, e.sout)
     [] OTHER -> FailW(s, "unknown_event")
@@ -289,15 +368,43 @@ Apply(s, e) ==
 (* ever issued with the token they denote.                                 *)
 (*   everSym[symbol]  = <<min unit, scale>> the symbol was first bound to   *)
 (*   everMu[min unit] = the symbol the min unit was first bound to          *)
+(*   inn[min unit]    = units that entered circulation: the supply found     *)
+(*                      when the token appeared (an issue: none) + issued +  *)
+(*                      minted + converted from ERC20 + minted by fee swaps  *)
+(*   out[min unit]    = units that left other than through BurnToken:        *)
+(*                      converted to ERC20, burned by fee swaps              *)
 (***************************************************************************)
 IdOf(t) == <<t.minUnit, t.scale>>
 
 GhostInit(s) == [everSym |-> [y \in DOMAIN s.tok |-> IdOf(s.tok[y])],
                  everMu |-> s.byMinUnit,
-                 pastOwners |-> [y \in DOMAIN s.tok |-> {s.tok[y].owner}]]
+                 pastOwners |-> [y \in DOMAIN s.tok |-> {s.tok[y].owner}],
+                 inn |-> [m \in DOMAIN s.byMinUnit |-> s.supply[m] + Amt(s.burned, m)],
+                 out |-> [m \in DOMAIN s.byMinUnit |-> 0]]
+
+GenuineHook(e) == e.name = "Hook" /\ e.sym = ""
+InOf(s, e, m) ==
+  IF ~e.ok THEN 0
+  ELSE IF e.name = "Issue" /\ e.mu = m THEN e.initial * Pow10(e.scale)
+  ELSE IF e.name = "Mint" /\ e.mu = m THEN e.amt
+  ELSE IF (e.name = "FromERC20" \/ GenuineHook(e)) /\ e.mu = m THEN e.amt
+  ELSE IF e.name = "SwapFee" /\ e.mu \in DOMAIN s.registry /\ s.registry[e.mu].to = m THEN e.mint
+  ELSE 0
+OutOf(s, e, m) ==
+  IF ~e.ok THEN 0
+  ELSE IF e.name = "ToERC20" /\ e.mu = m THEN e.amt
+  ELSE IF e.name = "SwapFee" /\ e.mu = m THEN e.burn
+  ELSE 0
 
 GhostStep(g, s, e, t) ==
-  [everSym |-> [y \in DOMAIN g.everSym \cup DOMAIN t.tok |->
+  [inn |-> [m \in DOMAIN t.byMinUnit |->
+              (IF m \in DOMAIN g.inn THEN g.inn[m]
+               ELSE IF e.name = "Issue" /\ e.ok /\ e.mu = m THEN 0
+               ELSE s.supply[m])          \* a token created for coins that already circulate
+              + InOf(s, e, m)],
+   out |-> [m \in DOMAIN t.byMinUnit |->
+              (IF m \in DOMAIN g.out THEN g.out[m] ELSE 0) + OutOf(s, e, m)],
+   everSym |-> [y \in DOMAIN g.everSym \cup DOMAIN t.tok |->
                   IF y \in DOMAIN g.everSym THEN g.everSym[y] ELSE IdOf(t.tok[y])],
    everMu |-> [m \in DOMAIN g.everMu \cup DOMAIN t.byMinUnit |->
                   IF m \in DOMAIN g.everMu THEN g.everMu[m] ELSE t.byMinUnit[m]],
@@ -397,8 +504,8 @@ ErcOthersSame(s, t, c, addr) ==
 
 C10_ToERC20(s, e, t) ==
   (e.name = "ToERC20" /\ e.ok) =>
-    /\ HasMinUnit(s, e.mu) /\ TokOf(s, e.mu).contract \in DOMAIN s.erc
-    /\ LET c == TokOf(s, e.mu).contract IN
+    /\ HasTok(s, e.mu) /\ ContractOf(s, e.mu) \in DOMAIN s.erc
+    /\ LET c == ContractOf(s, e.mu) IN
        /\ s.supply[e.mu] - t.supply[e.mu] = e.amt
        /\ s.bal[e.who][e.mu] - t.bal[e.who][e.mu] = e.amt
        /\ t.erc[c][e.to] - s.erc[c][e.to] = e.amt
@@ -407,8 +514,8 @@ C10_ToERC20(s, e, t) ==
 
 C10_FromERC20(s, e, t) ==
   (e.name = "FromERC20" /\ e.ok) =>
-    /\ HasMinUnit(s, e.mu) /\ TokOf(s, e.mu).contract \in DOMAIN s.erc
-    /\ LET c == TokOf(s, e.mu).contract IN
+    /\ HasTok(s, e.mu) /\ ContractOf(s, e.mu) \in DOMAIN s.erc
+    /\ LET c == ContractOf(s, e.mu) IN
        /\ t.supply[e.mu] - s.supply[e.mu] = e.amt
        /\ t.bal[e.to][e.mu] - s.bal[e.to][e.mu] = e.amt
        /\ s.erc[c][e.who] - t.erc[c][e.who] = e.amt
@@ -417,8 +524,8 @@ C10_FromERC20(s, e, t) ==
 
 (* the SwapToNative hook mints exactly the event's amount to the event's receiver *)
 C10_Hook(s, e, t) ==
-  (e.name = "Hook" /\ e.ok) =>
-    /\ HasMinUnit(s, e.mu)
+  (GenuineHook(e) /\ e.ok) =>
+    /\ HasTok(s, e.mu)
     /\ t.supply[e.mu] - s.supply[e.mu] = e.amt
     /\ t.bal[e.to][e.mu] - s.bal[e.to][e.mu] = e.amt
     /\ OthersSame(s, t, e.mu, e.to)
@@ -429,8 +536,8 @@ C10_SumConst(s, e, t) ==
   /\ \A c \in DOMAIN s.erc :
        (c \in DOMAIN t.erc /\ ErcTotal(t, c) # ErcTotal(s, c)) => (e.name \in ConvMsgs /\ e.ok)
   /\ (e.name \in ConvMsgs) =>
-       \A y \in DOMAIN s.tok :
-         LET c == s.tok[y].contract  m == s.tok[y].minUnit IN
+       \A m \in DOMAIN s.byMinUnit \cup {STAKE} :
+         LET c == ContractOf(s, m) IN
          (c # NoContract /\ c \in DOMAIN s.erc /\ c \in DOMAIN t.erc) =>
            t.supply[m] + ErcTotal(t, c) = s.supply[m] + ErcTotal(s, c)
 
@@ -485,11 +592,106 @@ C10_SwapSettle(s, e, t) ==
        /\ \A d \in DOMAIN s.supply : (d \notin {e.mu, out}) => t.supply[d] = s.supply[d]
 
 -----------------------------------------------------------------------------
+(***************************************************************************)
+(* Beyond the listed properties: DIAGNOSTIC clauses (X..).  They are        *)
+(* evaluated like the others, on the model and on every real trace, but    *)
+(* belong to no listed property: a failure is reported as a diagnostic.    *)
+(***************************************************************************)
+(* X09: per token, what entered - what left - the burned tally = supply, at
+   every moment (so the TotalBurn query, which returns the tally, is
+   consistent with the bank supply over time) *)
+X09_SupplyLedger(t, g) ==
+  \A m \in DOMAIN t.byMinUnit :
+    t.supply[m] = g.inn[m] - g.out[m] - Amt(t.burned, m)
+
+(* X09: the quoted fee is the tabulated one (symbol lengths 3..8) *)
+X09_FeeQuote(s, e) ==
+  /\ (e.name = "Issue" /\ LenKey(e.sym) \in DOMAIN s.feeq) => e.fee = s.feeq[LenKey(e.sym)]
+  /\ (e.name = "Mint" /\ HasMinUnit(s, e.mu) /\ LenKey(s.byMinUnit[e.mu]) \in DOMAIN s.feeq) =>
+       e.fee = MintFeeOf(s.feeq[LenKey(s.byMinUnit[e.mu])], s.params.mintNum, s.params.mintDen)
+
+(* X10: a contract is bound to at most one token, and every bound contract exists *)
+BoundContracts(t) ==
+  [m \in {x \in DOMAIN t.byMinUnit \cup {STAKE} : ContractOf(t, x) # NoContract} |-> ContractOf(t, m)]
+X10_ContractUnique(t) ==
+  LET b == BoundContracts(t) IN
+  /\ \A m1, m2 \in DOMAIN b : (b[m1] = b[m2]) => m1 = m2
+  /\ \A m \in DOMAIN b : b[m] \in DOMAIN t.erc
+
+(* X10: a deployment binds a NEW contract to the token of the named min unit
+   and to nothing else, moves no value; bindings never change afterwards *)
+X10_DeployBinds(s, e, t) ==
+  /\ (e.name = "Deploy" /\ e.ok) =>
+       /\ ContractOf(s, e.mu) = NoContract
+       /\ ContractOf(t, e.mu) \notin DOMAIN s.erc /\ ContractOf(t, e.mu) \in DOMAIN t.erc
+       /\ t.bal = s.bal /\ t.supply = s.supply
+       /\ \A c \in DOMAIN s.erc : t.erc[c] = s.erc[c]
+  /\ \A m \in DOMAIN s.byMinUnit \cup {STAKE} :
+       (ContractOf(t, m) # ContractOf(s, m)) =>
+         (e.name = "Deploy" /\ e.ok /\ e.mu = m /\ ContractOf(s, m) = NoContract)
+  /\ (DOMAIN t.erc # DOMAIN s.erc) => (e.name = "Deploy" /\ e.ok)
+
+(* X10: the hook ignores logs of unbound contracts and malformed logs; an
+   upgrade touches nothing but the beacon's implementation *)
+X10_HookIgnores(s, e, t) == (e.name = "Hook" /\ e.sym # "") => t = s
+X10_Upgrade(s, e, t) ==
+  /\ (e.name = "Upgrade") => t = [s EXCEPT !.impl = t.impl]
+  /\ (e.name = "Upgrade" /\ e.ok) => t.impl = e.to
+  /\ (t.impl # s.impl) => (e.name = "Upgrade" /\ e.ok)
+
+(***************************************************************************)
+(* Genesis at model level (C12): genesis.go ExportGenesis / InitGenesis,    *)
+(* types/v1/genesis.go ValidateGenesis, types/v1/token.go Validate.        *)
+(* Export = params, every token record (the native one included: here its  *)
+(* contract binding), the burned coins.  Import validates, then AddToken   *)
+(* for every token (symbol, min unit and contract must be unused; the      *)
+(* min-unit index is REBUILT from the records), then the burned coins.     *)
+(* Balances, supply and the ERC20 ledger belong to other modules' genesis. *)
+(***************************************************************************)
+ExportG(s) == [params |-> s.params, tokens |-> s.tok, native |-> s.native, burned |-> s.burned]
+
+TokenValid(t) == t.max >= t.initial /\ t.scale <= 18      \* Token.Validate (names apart)
+ValidateG(g) ==
+  /\ g.params.taxNum >= 0 /\ g.params.taxNum <= g.params.taxDen
+  /\ g.params.mintNum >= 0 /\ g.params.mintNum <= g.params.mintDen
+  /\ g.params.baseFee >= 0
+  /\ \A y \in DOMAIN g.tokens : TokenValid(g.tokens[y])
+  /\ \A m \in DOMAIN g.burned : g.burned[m] >= 0
+
+(* AddToken in any order succeeds iff min units and contracts are pairwise distinct *)
+ImportAccepted(g) ==
+  /\ ValidateG(g)
+  /\ \A y1, y2 \in DOMAIN g.tokens :
+       (y1 # y2) => /\ g.tokens[y1].minUnit # g.tokens[y2].minUnit
+                    /\ (g.tokens[y1].contract # NoContract =>
+                          /\ g.tokens[y1].contract # g.tokens[y2].contract
+                          /\ g.tokens[y1].contract # g.native)
+  /\ \A y \in DOMAIN g.tokens : g.tokens[y].minUnit # STAKE /\ y # STAKE
+
+ImportG(g) ==
+  [tok |-> g.tokens,
+   byMinUnit |-> [m \in {g.tokens[y].minUnit : y \in DOMAIN g.tokens} |->
+                    CHOOSE y \in DOMAIN g.tokens : g.tokens[y].minUnit = m],
+   native |-> g.native, burned |-> g.burned, params |-> g.params]
+
+(* known finding F12: after burns the owner may lower the maximum below the
+   INITIAL supply (EditToken only requires max >= circulating supply), and
+   Token.Validate refuses max < initial supply on import *)
+F12Shape(s) == \E y \in DOMAIN s.tok : s.tok[y].max < s.tok[y].initial
+X12_Token_Accepted(s) == ImportAccepted(ExportG(s))
+X12_Token_Accepted_ModF12(s) == F12Shape(s) \/ X12_Token_Accepted(s)
+X12_Token_RoundTrip(s) ==
+  LET i == ImportG(ExportG(s)) IN
+  /\ i.tok = s.tok /\ i.byMinUnit = s.byMinUnit /\ i.native = s.native
+  /\ i.burned = s.burned /\ i.params = s.params
+
+-----------------------------------------------------------------------------
 (* Model-checking universe *)
 CONSTANTS Owners, Symbols, Scales, Initials, Maxes, Amounts, EditMaxes, EditMint, MintTo, TransferTo,
           MaxTokens, InitStake, BaseFee, TaxNum, TaxDen, MintNum, MintDen, TaxNums,
           Acts, Prologue, PScaleA, PScaleB, ConvAmounts, ConvTo,
-          RegIn, RegOut, RegRn, RegRd, SwapAmounts, MaxRej, Sample
+          RegIn, RegOut, RegRn, RegRd, SwapAmounts, MaxRej, Sample,
+          InitIbc, DeployExtra, HookVariants, UpgradeTo
 
 Denoms == MinUnitsC \cup {STAKE}
 Accts == Users \cup {TOK, FEEP}
@@ -503,15 +705,18 @@ Registry0 == IF RegIn = "" THEN EmptyF
 Init0 ==
   [tok |-> EmptyF, byMinUnit |-> EmptyF, burned |-> EmptyF,
    bal |-> [a \in Accts |-> [d \in Denoms |->
-              IF a \in Users /\ d = STAKE THEN InitStake ELSE 0]],
-   supply |-> [d \in Denoms |-> IF d = STAKE THEN Cardinality(Users) * InitStake ELSE 0],
-   params |-> Params0, erc |-> EmptyF, nonce |-> 0, registry |-> Registry0]
+              IF a \in Users /\ d = STAKE THEN InitStake
+              ELSE IF a \in Users /\ d \in IBCDenoms THEN InitIbc ELSE 0]],
+   supply |-> [d \in Denoms |-> IF d = STAKE THEN Cardinality(Users) * InitStake
+                                 ELSE IF d \in IBCDenoms THEN Cardinality(Users) * InitIbc ELSE 0],
+   params |-> Params0, erc |-> EmptyF, nonce |-> 0, registry |-> Registry0,
+   native |-> NoContract, impl |-> "", feeq |-> FeeTable(BaseFee)]
 
 Init == st = Init0 /\ ev = NoEv /\ gh = GhostInit(Init0) /\ hist = <<>>
 
 (* fee quotes for 3-letter symbols: (ln 3/ln 3)^4 = 1.00 -> the base fee
    (at least 1); the mint fee is its truncated mint-ratio share *)
-IssueFee(s) == IF s.params.baseFee > 1 THEN s.params.baseFee ELSE 1
+IssueFee(s) == s.feeq["3"]
 MintFee(s) == MintFeeOf(IssueFee(s), s.params.mintNum, s.params.mintDen)
 
 Step(e) ==
@@ -577,21 +782,31 @@ SwapFee ==
        Step([NoEv EXCEPT !.name = "SwapFee", !.who = who, !.mu = mu, !.amt = a, !.to = to])
 Deploy ==
   /\ On("Deploy")
-  /\ \E mu \in DOMAIN st.byMinUnit :
-       Step([NoEv EXCEPT !.name = "Deploy", !.mu = mu, !.sym = st.byMinUnit[mu],
-                         !.scale = TokOf(st, mu).scale])
+  /\ \/ \E mu \in DOMAIN st.byMinUnit :
+          Step([NoEv EXCEPT !.name = "Deploy", !.mu = mu, !.sym = st.byMinUnit[mu],
+                            !.scale = TokOf(st, mu).scale])
+     \* the native token, an IBC denom without a token, a name without anything
+     \/ \E mu \in DeployExtra \ DOMAIN st.byMinUnit, sy \in Pick({"ibx", "aaa"}) :
+          Step([NoEv EXCEPT !.name = "Deploy", !.mu = mu, !.sym = sy, !.scale = 0])
+Upgrade ==
+  /\ On("Upgrade")
+  /\ \E to \in Pick(UpgradeTo) : Step([NoEv EXCEPT !.name = "Upgrade", !.to = to])
+(* coins that can be converted: every token's, and the native one's once bound *)
+ConvMus == DOMAIN st.byMinUnit \cup (IF st.native # NoContract THEN {STAKE} ELSE {})
 ToERC20 ==
   /\ On("ToERC20")
-  /\ \E who \in Users, to \in Pick(ErcAddrs(st)), mu \in DOMAIN st.byMinUnit, a \in Pick(ConvAmounts) :
+  /\ \E who \in Users, to \in Pick(ErcAddrs(st)), mu \in ConvMus, a \in Pick(ConvAmounts) :
        Step([NoEv EXCEPT !.name = "ToERC20", !.who = who, !.to = to, !.mu = mu, !.amt = a])
 FromERC20 ==
   /\ On("FromERC20")
-  /\ \E who \in Users, to \in Pick(ConvTo), mu \in DOMAIN st.byMinUnit, a \in Pick(ConvAmounts) :
+  /\ \E who \in Users, to \in Pick(ConvTo), mu \in ConvMus, a \in Pick(ConvAmounts) :
        Step([NoEv EXCEPT !.name = "FromERC20", !.who = who, !.to = to, !.mu = mu, !.amt = a])
 Hook ==
   /\ On("Hook")
-  /\ \E who \in ErcAddrs(st), to \in Pick(ConvTo), mu \in DOMAIN st.byMinUnit, a \in Pick(ConvAmounts) :
-       Step([NoEv EXCEPT !.name = "Hook", !.who = who, !.to = to, !.mu = mu, !.amt = a])
+  /\ \/ \E who \in ErcAddrs(st), to \in Pick(ConvTo), mu \in ConvMus, a \in Pick(ConvAmounts) :
+          Step([NoEv EXCEPT !.name = "Hook", !.who = who, !.to = to, !.mu = mu, !.amt = a])
+     \/ \E v \in Pick(HookVariants), mu \in DOMAIN st.byMinUnit :
+          Step([NoEv EXCEPT !.name = "Hook", !.sym = v, !.who = EXT, !.to = "u1", !.mu = mu, !.amt = 1])
 SetParams ==
   /\ On("SetParams")
   /\ \E b \in Pick(BOOLEAN), n \in Pick(TaxNums) :
@@ -601,7 +816,7 @@ SetParams ==
 
 Next == IF InPrologue THEN PrologueStep
         ELSE Issue \/ Edit \/ TransferOwner \/ Mint \/ Burn \/ SwapFee \/ Deploy
-             \/ ToERC20 \/ FromERC20 \/ Hook \/ SetParams
+             \/ ToERC20 \/ FromERC20 \/ Hook \/ SetParams \/ Upgrade
 
 Spec == Init /\ [][Next]_vars
 
@@ -706,6 +921,15 @@ Act_C09_Cap == [][C09_Cap(st, ev', st')]_vars
 Act_C09_Cap_ModF5 ==
   [][C09_Cap(st, ev', st') \/ Apply(st, ev').why = "f5_edit_floor"]_vars
 Act_C09_Burned == [][C09_Burned(st, ev', st')]_vars
+Act_X09_SupplyLedger == [][X09_SupplyLedger(st', gh')]_vars
+Act_X09_FeeQuote == [][X09_FeeQuote(st, ev')]_vars
+Act_X10_DeployBinds == [][X10_DeployBinds(st, ev', st')]_vars
+Act_X10_HookIgnores == [][X10_HookIgnores(st, ev', st')]_vars
+Act_X10_Upgrade == [][X10_Upgrade(st, ev', st')]_vars
+Inv_X10_ContractUnique == X10_ContractUnique(st)
+Inv_X12_Token_Accepted == X12_Token_Accepted(st)
+Inv_X12_Token_Accepted_ModF12 == X12_Token_Accepted_ModF12(st)
+Inv_X12_Token_RoundTrip == X12_Token_RoundTrip(st)
 Act_C09_Fee == [][C09_Fee(st, ev', st')]_vars
 Act_Rejected_NoEffect == [][Rejected_NoEffect(st, ev', st')]_vars
 Act_C10_ToERC20 == [][C10_ToERC20(st, ev', st')]_vars
